@@ -230,12 +230,11 @@ def check(ctx):
             return n.kind == "if" and any(unparse(e) == flag for e, _ in implied_facts(n.ast.test, True))
 
         def skip(a, b, l):
-            if a.kind == "if":
-                for e, pol in implied_facts(a.ast.test, True):
-                    if unparse(e) == flag:
-                        # edge where flag is known true: pol True -> 'true' edge; pol False -> 'false' edge
-                        if (pol and l == "true") or ((not pol) and l == "false"):
-                            return True
+            # edges on which the flag is known to be true are the legitimate "use the cache" paths
+            if a.kind == "if" and l in ("true", "false"):
+                for e, pol in implied_facts(a.ast.test, l == "true"):
+                    if unparse(e) == flag and pol:
+                        return True
             return False
 
         seen = cfg.reach(chk_nodes, stop=lambda n: n.ast is not None and id(n.ast) in comp_stmts, skip_edge=skip)
